@@ -370,6 +370,14 @@ pub fn decode_image(img: &DirImage) -> Result<Decoded, String> {
             continue;
         }
         let b = decode_branch(p, pn)?;
+        if std::env::var_os("VERIF_DUMP").is_some() {
+            eprintln!("DUMP bbn {pn}: n {} prefix_compressed {} prefix_len {} first {} second {} last {}", b.keys.len(), b.prefix_compressed, b.prefix_len, hex::encode(b.keys[0]), b.keys.get(1).map(hex::encode).unwrap_or_default(), hex::encode(b.keys[b.keys.len() - 1]));
+        }
+        if std::env::var("VERIF_DUMP").map_or(false, |v| v == "allseps") {
+            for (i, k) in b.keys.iter().enumerate() {
+                eprintln!("SEP bbn {pn} #{i} {} -> leaf {}", hex::encode(&k[16..]), b.ptrs[i]);
+            }
+        }
         d.n_bbn += 1;
         d.bbn_live.insert(pn);
         for w in b.keys.windows(2) {
@@ -439,10 +447,10 @@ pub fn decode_image(img: &DirImage) -> Result<Decoded, String> {
         for (k, c) in cells {
             if k < *sep || next.map_or(false, |n| k >= n) {
                 return Err(format!(
-                    "key {} in leaf {lpn} is outside its separator range [{}, {})",
-                    hx8(&k),
-                    hx8(sep),
-                    next.map(|n| hx8(&n)).unwrap_or_else(|| "end".into())
+                    "key {} in leaf {lpn} (bbn {bpn}) is outside its separator range [{}, {})",
+                    crate::util::hx(&k),
+                    crate::util::hx(sep),
+                    next.map(|n| crate::util::hx(&n)).unwrap_or_else(|| "end".into())
                 ));
             }
             let val = match c {
